@@ -16,6 +16,7 @@ import (
 	_ "pdverif/internal/checkerh"
 	_ "pdverif/internal/placementh"
 	_ "pdverif/internal/regionh"
+	_ "pdverif/internal/schedh"
 	_ "pdverif/internal/replh"
 	_ "pdverif/internal/storageh"
 	_ "pdverif/internal/syncerh"
